@@ -202,11 +202,42 @@ def run(ctx: Ctx) -> None:
                      f"the graph's own node order, so for a graph whose nodes were not created in sorted order the height function — hence the "
                      f"reported emitter count — is that of a different emission order than the one the circuit uses",
                      func="height_dict", construct="height_dict: node order differs from the graph's own")
+    # emitter_sorted: the count attached to an adjacency matrix is the height maximum of the graph of that whole matrix
+    RELABEL_ = "graphiq/utils/relabel_module.py"
+    rm_ = repo.module(RELABEL_)
+    es = repo.anchor(RELABEL_, "emitter_sorted")
+    ctx.touch(rm_, es)
+    apps = [c for c in calls_in(es) if call_attr(c) == "append" and c.args and isinstance(c.args[0], ast.Tuple) and len(c.args[0].elts) == 2]
+    if len(apps) != 1:
+        raise AnalysisError("emitter_sorted: `(adjacency, n_emit)` append not found")
+    adj_e, cnt_e = apps[0].args[0].elts
+    cnt_defs = [a for a in ast.walk(es) if isinstance(a, ast.Assign) and len(a.targets) == 1 and norm(a.targets[0]) == norm(cnt_e)]
+    def _whole(v):
+        # height_max(graph=G) / height_max(x, z) with G = nx.from_numpy_array(<the adjacency>) (or the adjacency itself)
+        if not (isinstance(v, ast.Call) and call_name(v) in ("height_max", "TimeReversedSolver.determine_n_emitters")):
+            return False
+        g = get_kw(v, "graph") or (v.args[-1] if v.args else None)
+        for _ in range(2):
+            if isinstance(g, ast.Name):
+                src = [a.value for a in ast.walk(es) if isinstance(a, ast.Assign) and len(a.targets) == 1 and norm(a.targets[0]) == g.id]
+                g = src[-1] if src else g
+        return isinstance(g, ast.Call) and call_name(g) in ("nx.from_numpy_array", "nx.Graph", "nx.to_networkx_graph") and g.args and norm(g.args[0]) == norm(adj_e) \
+            or (g is not None and norm(g) == norm(adj_e))
+    if cnt_defs and all(_whole(a.value) for a in cnt_defs):
+        ctx.ok("height.formula", rm_, apps[0], what="emitter_sorted: count = height maximum of the whole graph")
+    else:
+        badv = next((a for a in cnt_defs if not _whole(a.value)), None)
+        ctx.fail("height.formula", rm_, badv or apps[0],
+                 f"emitter_sorted pairs the adjacency matrix with `{short(badv.value, 60) if badv is not None else norm(cnt_e)}`, which is not the height "
+                 f"maximum of the graph of that whole matrix: the height at a cut adds up over components (two interleaved pairs {{0-2, 1-3}} need 2 "
+                 f"emitters, their pieces 1 each), so a per-piece maximum under-reports the emitters the solver then really uses",
+                 func="emitter_sorted", construct="emitter_sorted: emitter count not taken from the whole graph")
     # advisory noted in DESIGN §5.3
     from ..rules import memo
-    memo.rule_memo_sound(ctx, [HEIGHT, TRS])
-    memo.rule_falsy_zero(ctx, [HEIGHT, TRS])
-    memo.rule_arg_names(ctx, [HEIGHT, TRS])
+    _m3 = [HEIGHT, TRS, "graphiq/backends/stabilizer/functions/stabilizer.py", "graphiq/utils/relabel_module.py"]
+    memo.rule_memo_sound(ctx, _m3)
+    memo.rule_falsy_zero(ctx, _m3)
+    memo.rule_arg_names(ctx, _m3)
     hd = repo.anchor(HEIGHT, "height_dict")
     for n in ast.walk(hd):
         if isinstance(n, ast.Assign) and isinstance(n.value, ast.Call) and call_attr(n.value) == "sort":
@@ -224,6 +255,8 @@ def _anc(n):
 
 
 KNOCKOUTS = [
+    Knockout("rref-any-over-indices", "graphiq/backends/stabilizer/functions/stabilizer.py", sub_once("    if not (pauli_x_list or pauli_y_list or pauli_z_list):", "    if not any(pauli_x_list + pauli_y_list + pauli_z_list):"), "falsy.zero", "truthiness"),
+    Knockout("emitter-sorted-subgraph", "graphiq/utils/relabel_module.py", sub_once("        n_emit = height_max(graph=g)\n", "        n_emit = height_max(graph=g)\n        n_emit = max(height_max(graph=g.subgraph(c)) for c in nx.connected_components(g))\n"), "height.formula", "not taken from the whole graph"),
     Knockout("height-max-weak-cache", HEIGHT, sub_once("def height_max(x_matrix=None, z_matrix=None, graph=None):", "import weakref\n_HM = weakref.WeakKeyDictionary()\n\n\ndef height_max_cached(graph):\n    if graph in _HM:\n        return _HM[graph]\n    _HM[graph] = height_max(graph=graph)\n    return _HM[graph]\n\n\ndef height_max(x_matrix=None, z_matrix=None, graph=None):"), "memo.sound", "key does not determine"),
     Knockout("height-sorted-nodes", HEIGHT, sub_once("            node_list = list(graph.nodes()).sort()", "            node_list = sorted(graph.nodes())"), "height.formula", "node order differs"),
     Knockout("G11-double-emission", TRS,
